@@ -204,3 +204,82 @@ def rule_wid1(prog, rep, units, rid='WID1'):
                                   '%s: %s is computed in %d bits and only then converted to 64 bits: the bits the %s pushes beyond bit 31 '
                                   'are lost before the widening' % (f.name, canon(inner)[:50], width_of(inner),
                                                                     'shift' if inner.get('opcode') == '<<' else 'multiplication'))
+
+
+def rule_wid2(prog, rep, units, rid='WID2'):
+    """Shift registers.  `v = (v << k) | bit` inside a loop records one k-bit item per iteration in a fixed-width variable; after
+    width/k iterations the oldest items fall off the top.  Unless the variable is re-initialised inside the loop (a staging
+    word that is flushed) or the loop is bounded by a counter compared with a constant <= width/k, the loop's trip count -
+    the depth of a tree, the length of a text - decides whether information is lost."""
+    from .valgraph import width_of
+    from .looprules import _natural_body
+    rep.rule(rid, 'a shift-register accumulation (v = (v << k) | x) in a loop is flushed inside the loop or the loop is bounded by width/k '
+                  'iterations: otherwise the oldest bits are shifted out when the input is deep/long enough')
+    for unit in units:
+        prog.unit(unit)
+        for f in sorted(prog.funcs_in(unit), key=lambda x: x.line or 0):
+            if f.body is None:
+                continue
+            cfg = f.cfg
+            for (head, stmt) in cfg.loops:
+                if head.id not in cfg.reachable:
+                    continue
+                body = _natural_body(cfg, head, stmt)
+                accs = []
+                for i in body:
+                    m = cfg.nodes[i]
+                    if not isinstance(m.ast, dict) or m.kind == 'macro':
+                        continue
+                    for y in walk(m.ast):
+                        v = k = None
+                        if y.get('kind') == 'BinaryOperator' and y.get('opcode') == '=':
+                            l = strip(children(y)[0])
+                            if l.get('kind') != 'DeclRefExpr':
+                                continue
+                            rot = any(z.get('kind') == 'BinaryOperator' and z.get('opcode') == '>>' and canon(children(z)[0]) == canon(l)
+                                      for z in walk(children(y)[1]))          # (v << k) | (v >> (w - k)): a rotation loses nothing
+                            for z in walk(children(y)[1]):
+                                if not rot and z.get('kind') == 'BinaryOperator' and z.get('opcode') == '<<' and canon(children(z)[0]) == canon(l) \
+                                        and isinstance(int_value(children(z)[1]), int):
+                                    v, k = l, int_value(children(z)[1])
+                        elif y.get('kind') == 'CompoundAssignOperator' and y.get('opcode') == '<<=' and isinstance(int_value(children(y)[1]), int):
+                            l = strip(children(y)[0])
+                            if l.get('kind') == 'DeclRefExpr':
+                                v, k = l, int_value(children(y)[1])
+                        if v is not None and k:
+                            accs.append((v, k, y))
+                for (v, k, y) in accs:
+                    nm = canon(v)
+                    # flushed inside the loop: any other plain assignment of v in the loop body that does not read v
+                    flushed = False
+                    for i in body:
+                        m = cfg.nodes[i]
+                        if not isinstance(m.ast, dict) or m.kind == 'macro':
+                            continue
+                        for z in walk(m.ast):
+                            if z.get('kind') == 'BinaryOperator' and z.get('opcode') == '=' and canon(children(z)[0]) == nm and z is not y \
+                                    and nm not in [canon(q) for q in walk(children(z)[1]) if q.get('kind') == 'DeclRefExpr']:
+                                flushed = True
+                            if z.get('kind') == 'VarDecl' and z.get('name') == nm:
+                                flushed = True          # declared inside the loop: a fresh register per iteration
+                    if flushed:
+                        continue
+                    rep.instance(rid)
+                    w = width_of(v)
+                    limit = w // k
+                    bounded = False
+                    for i in body:
+                        m = cfg.nodes[i]
+                        if m.kind == 'cond' and isinstance(m.ast, dict):
+                            c = strip_parens(m.ast)
+                            if c.get('kind') == 'BinaryOperator' and c.get('opcode') in ('<', '<=', '>', '>=', '!='):
+                                vals = [int_value(q) for q in children(c)]
+                                vals = [q for q in vals if isinstance(q, int)]
+                                if vals and 0 < max(vals) <= limit:
+                                    bounded = True
+                    rep.oblige(rid, bounded, {'function': f.name, 'register': nm, 'width': w, 'bits_per_iteration': k})
+                    if not bounded:
+                        rep.violation(rid, f, y.get('_line'), 'shiftreg:%s' % nm,
+                                      '%s: %s collects %d bit(s) per iteration of the loop at line %s in a %d-bit variable and is neither flushed '
+                                      'inside the loop nor is the loop bounded by %d iterations: beyond that the oldest bits are shifted out '
+                                      '(the result depends on how deep / long the input is)' % (f.name, nm, k, head.line, w, limit))
